@@ -60,6 +60,7 @@ MutinyStream<'a, ItemType, ChannelConsumerType, DerivedItemType> {
             None => {
                 if self.events_source.keep_stream_running(self.stream_id) {
                     self.events_source.register_stream_waker(self.stream_id, cx.waker());
+                    #[cfg(feature = "verif")] crate::verif::yield_point();
                     Poll::Pending
                 } else {
                     Poll::Ready(None)
